@@ -279,17 +279,27 @@ def work(spec, rec):
                 M, Mr = mats[(a, b)], mats[(b, a)]
                 if not all(close(M[i][j], Mr[j][i], 1e-8) for i in range(3) for j in range(3)):
                     rec.violation(f"inverse-not-reverse:{a}<->{b}", f"M({a}->{b}) is not the transpose of M({b}->{a}) at {c}", {"point_cartesian": list(c), "pair": [a, b]})
-        # (6) Lame coefficients
-        for n in S:
+        # (6) Lame coefficients - of the systems used so far and, every few points, of systems created just now (each system
+        # has scale factors in its own coordinates, however many systems the process has created before)
+        lame_sets = [S]
+        if it % 5 == 0:
+            lame_sets.append({"cart": S["cart"], "cyl": CylindricalCoordinateSystem(), "sph": SphericalCoordinateSystem()})
+            rec.hit("lame_of_fresh_systems")
+        for SS in lame_sets:
+          for n in SS:
             rec.hit("lame")
-            h = [fl(sympy.sympify(x).subs(dict(zip(S[n].base_scalars, q[n])))) for x in S[n].lame_coefficients]
+            try:
+                h = [fl(sympy.sympify(x).subs(dict(zip(SS[n].base_scalars, q[n])))) for x in SS[n].lame_coefficients]
+            except (TypeError, ValueError) as x_:
+                rec.violation(f"lame:{n}:not-in-own-coordinates", f"Lame coefficients {SS[n].lame_coefficients} of a {n} system are not functions of its own base scalars {SS[n].base_scalars} ({type(x_).__name__})", {"system": n})
+                continue
             # from the library's own Cartesian map
-            cm = express_base_scalars(S["cart"], S[n]) if n != "cart" else {s: s for s in S["cart"].base_scalars}
-            xyz = [cm[s] for s in S["cart"].base_scalars]
+            cm = express_base_scalars(SS["cart"], SS[n]) if n != "cart" else {s: s for s in SS["cart"].base_scalars}
+            xyz = [cm[s] for s in SS["cart"].base_scalars]
             own = []
             fd = []
-            for i, qi in enumerate(S[n].base_scalars):
-                d = [fl(sympy.diff(e, qi).subs(dict(zip(S[n].base_scalars, q[n])))) for e in xyz]
+            for i, qi in enumerate(SS[n].base_scalars):
+                d = [fl(sympy.diff(e, qi).subs(dict(zip(SS[n].base_scalars, q[n])))) for e in xyz]
                 own.append(math.sqrt(sum(v * v for v in d)))
                 eps = 1e-6
                 qp = list(q[n]); qm = list(q[n])
